@@ -222,6 +222,12 @@ func (v4proto) BuildReply(reqWire []byte, kind replyKind, serial uint32, altXid 
 		b = g
 	case rkEmpty:
 		b = []byte{}
+	case rkAccept, rkReject:
+		if serial%16 == 0 {
+			// a large but legal reply: 1473..1500 bytes (pad after the end option) fills the client's
+			// 1500-byte read buffer to the brim, and with IP + UDP headers exceeds 1500 on a raw link
+			b = append(b, make([]byte, 1473+int(serial/16%28)-len(b))...)
+		}
 	case rkOversize:
 		// trailing pad bytes after the end option: the 1500 bytes the client reads still decode
 		// (at most 1540: a raw-frame reader offering 1500 bytes must have room for 60 + 8 + 1500)
